@@ -8,6 +8,9 @@
 -/
 import Walleye.Props.C08
 import Walleye.Proofs.GenSound
+import Walleye.Proofs.Fallback
+import Walleye.Proofs.LegalPres
+import Walleye.Proofs.MakeMoveObs
 import Walleye.Model.SearchChess
 namespace Walleye
 open Str
@@ -95,5 +98,89 @@ theorem go_answer_is_search_result (σ σ' : Sess) (raw : List Char) (out : List
       exact ⟨by assumption, rfl⟩
     · cases hs
   · cases hs
+
+
+/-! ### the whole path of one `go`: search thread → channel → polling loop → `bestmove` text -/
+
+/-- (after fix 3ef6069) the search thread hands over a board before its first evaluation starts,
+    whenever the root has a move: for every game, clock expiry (also 0), oracle that keeps a move,
+    and whatever the outcome of the run — so the polling loop never waits in vain -/
+theorem search_always_hands_over_a_move {P O : Type} (g : Game P) (ord : Oracle P O) (hne : OrdNonempty ord)
+    (fuel : Nat) (root : P) (s : SS P O) (hs : s.reports = #[]) (hroot : g.gen root .all ≠ []) :
+    ∃ first rest, (outState (getBestMove g ord fuel root s)).reports.toList = Report.sent first :: rest := by
+  obtain ⟨first, _, rest, _, h⟩ := getBestMove_hands_over_first g ord hne fuel root s hs hroot
+  exact ⟨first, rest, h⟩
+
+/-- the text printed for a root successor is `bestmove` + the long algebraic text of a move that is
+    legal in the root position (promotion letter exactly when that move promotes: `uciText` prints
+    the promotion piece of the move and C01 says which moves carry one), and the board is the
+    specification's position after that move, well-formed again -/
+theorem bestmove_text_is_a_legal_move (h : Hasher) (root : Pos) (wf : WFp root) (hinv : Inv h root) (q : Pos)
+    (hq : ∃ m ∈ generateMoves h root .all, q = m ∨ q = (chessGame h).withOh m Gen.posInf) :
+    bestmoveLine q = some ("bestmove ".toList ++ uciText (moveOf q)) ∧
+    Spec.legal (abs root) (moveOf q) = true ∧ abs q = Spec.apply (abs root) (moveOf q) ∧ WFp q := by
+  obtain ⟨m, hm, hor⟩ := hq
+  obtain ⟨a, b, _, hl, ha, hb, _, _⟩ := makeMove_reproduces_successor h root wf m hm
+  obtain ⟨hlegal, habs⟩ := generateMoves_sound h root wf m hm
+  obtain ⟨hwf, _⟩ := generateMoves_wf h root wf hinv m hm
+  have htxt : moveText m = some (uciText (moveOf m)) := by
+    rw [moveText_eq m a b hl]
+    unfold uciText moveOf
+    rw [hl]
+    simp only [toPt_specOf a ha, toPt_specOf b hb]
+  have key : bestmoveLine m = some ("bestmove ".toList ++ uciText (moveOf m)) ∧
+      Spec.legal (abs root) (moveOf m) = true ∧ abs m = Spec.apply (abs root) (moveOf m) ∧ WFp m := by
+    refine ⟨?_, hlegal, habs, hwf⟩
+    unfold bestmoveLine
+    rw [htxt]; rfl
+  rcases hor with rfl | rfl
+  · exact key
+  · exact ⟨key.1, key.2.1, key.2.2.1, ⟨hwf.ring, hwf.inner, hwf.kings, hwf.lp, hwf.epb⟩⟩
+
+/-- **one `go`, end to end, on the model**: the current position is well-formed (a legal position,
+    as produced by `position` from any legal FEN / move list — C15, C04) and has a legal move; the
+    board the dispatcher plays was obtained by the polling loop, under ANY schedule of polls, from
+    boards the search thread sent, under ANY clock expiry and ordering.  Then the `go` prints exactly
+    one line, `bestmove` + the UCI long algebraic text of a move that is legal in the current
+    position, and the engine's position becomes the rules' position after that move, well-formed
+    again — so the statement applies to the next `go` without a new `position` as well. -/
+theorem go_is_answered_with_one_legal_bestmove {O : Type} (h : Hasher) (search : Pos → DrawTable → Nat → Option Pos)
+    (ord : Oracle Pos O) (hord : OrdSub ord) (fuel : Nat) (s0 : SS Pos O) (hs0 : s0.reports = #[])
+    (σ σ' : Sess) (raw : List Char) (out : List String) (gt : GameTime)
+    (wf : WFp σ.board) (hinv : Inv h σ.board)
+    (hc : String.ofList ((splitOn ' ' (cleanInput raw)).headD []) = "go")
+    (hg : parseGoCommand (splitOn ' ' (cleanInput raw)) = some gt)
+    (hne : generateMoves h σ.board .all ≠ [])
+    (sched : List (Bool × Option Pos))
+    (hsearch : search σ.board σ.table (calculateTimeSlice gt σ.board.toMove) = ioLoop sched none)
+    (harr : ∀ b, some b ∈ sched.map (·.2) →
+      Report.sent b ∈ (outState (getBestMove (chessGame h) ord fuel σ.board s0)).reports.toList)
+    (hs : step h search σ (some raw) = .cont σ' out) :
+    ∃ m : Spec.Move, Spec.legal (abs σ.board) m = true ∧
+      out = [String.ofList ("bestmove ".toList ++ uciText m)] ∧
+      abs σ'.board = Spec.apply (abs σ.board) m ∧ WFp σ'.board ∧ σ'.table = σ.table := by
+  obtain ⟨hres, htab⟩ := go_answer_is_search_result h search σ σ' raw out gt hc hg hne hs
+  rw [hsearch] at hres
+  -- the board played arrived on the channel, hence was sent, hence is a root successor
+  have hmem := ioLoop_result_mem sched none none hres
+  have harrived : some σ'.board ∈ sched.map (·.2) := by
+    rcases hmem with h0 | h1
+    · cases h0
+    · exact h1
+  have hsent := harr σ'.board harrived
+  have hroot := getBestMove_sends_root_successors (chessGame h) ord hord fuel σ.board s0 hs0 σ'.board hsent
+  obtain ⟨hline, hlegal, habs, hwf⟩ := bestmove_text_is_a_legal_move h σ.board wf hinv σ'.board hroot
+  refine ⟨moveOf σ'.board, hlegal, ?_, habs, hwf, htab⟩
+  -- what the dispatcher printed
+  unfold step at hs
+  have hne' : (generateMoves h σ.board .all).isEmpty = false := by
+    cases hl : generateMoves h σ.board .all with
+    | nil => exact absurd hl hne
+    | cons _ _ => rfl
+  simp +decide only [hc, if_true, if_false, hg, hne'] at hs
+  rw [hsearch, hres] at hs
+  simp only [hline] at hs
+  injection hs with _ hout
+  exact hout.symm
 
 end Walleye
